@@ -34,6 +34,12 @@ const REFS: &[RefEl] = &[
     RefEl { id: "e1", src: r#"<ellipse id="e1" cxy="12 6" rxy="10 4"/>"#, bbox: (2., 2., 22., 10.), shape: Shape::Ellipse { cx: 12., cy: 6., rx: 10., ry: 4. } },
     RefEl { id: "l1", src: r#"<line id="l1" xy1="0 10" xy2="20 0"/>"#, bbox: (0., 0., 20., 10.), shape: Shape::BoxOnly },
     RefEl { id: "g1", src: r#"<g id="g1"><rect xy="1 1" wh="4 2"/><rect xy="10 6" wh="2 6"/></g>"#, bbox: (1., 1., 12., 12.), shape: Shape::BoxOnly },
+    // references carrying a transform of their own
+    RefEl { id: "rt", src: r#"<rect id="rt" xy="0 0" wh="10 4" transform="translate(14 2)"/>"#, bbox: (14., 2., 24., 6.), shape: Shape::Rect },
+    RefEl { id: "rm", src: r#"<rect id="rm" xy="0 0" wh="10 4" transform="matrix(1 0 0 1 8 3)"/>"#, bbox: (8., 3., 18., 7.), shape: Shape::Rect },
+    RefEl { id: "rr", src: r#"<rect id="rr" xy="0 -25" wh="12 20" transform="rotate(90)"/>"#, bbox: (5., 0., 25., 12.), shape: Shape::Rect },
+    RefEl { id: "ct", src: r#"<circle id="ct" cxy="0 0" r="8" transform="translate(10 5)"/>"#, bbox: (2., -3., 18., 13.), shape: Shape::Circle { cx: 10., cy: 5., r: 8. } },
+    RefEl { id: "et", src: r#"<ellipse id="et" cxy="6 3" rxy="5 2" transform="scale(2)"/>"#, bbox: (2., 2., 22., 10.), shape: Shape::Ellipse { cx: 12., cy: 6., rx: 10., ry: 4. } },
     // derived references: a previous surround / inside element
     RefEl { id: "s1", src: r##"<rect id="s1" surround="#r1 #r2" margin="1"/>"##, bbox: (-1., -1., 26., 16.), shape: Shape::Rect },
     RefEl { id: "i1", src: r##"<rect id="i1" inside="#r1 #r2"/>"##, bbox: (5., 3., 20., 10.), shape: Shape::Rect },
@@ -344,7 +350,7 @@ pub fn run(tier: Tier) -> i32 {
         }
     }
     rep.set("rule", json!("Ordered lists of 1-3 distinct references (thorough tier: also every set of 4, ascending and descending) from 11 elements with known shapes (five rects: overlapping, nested, disjoint, negative/fractional; circle, ellipse, line, group, a previous surround element, a previous inside element) x container {rect, circle, ellipse} x {surround, inside} x 10 margin forms (none, 1-4 values, mixed separators, percent, percent+absolute, negative, zero). Oracle from the references' known geometry: surround rect = union grown by margin exactly; circle/ellipse centred on that box and enclosing its corners (ellipse: corners not outside the curve; circle: radius between the half-diagonal and that of the enclosing square); percent margins only required to enclose. inside: rect among rect references = intersection shrunk by margin exactly; every boundary sample point of the result lies within every listed element's own area and within the intersection box shrunk by absolute margins; an empty intersection must not yield a positioned element. surround/inside/margin absent from the output. Non-trivial = Ok with observable geometry and all clauses satisfied."));
-    rep.set("also", json!("Also: margin without surround / inside (attribute, through <defaults>, on a circle) never reaches the output; '^' in a reference list together with a forward reference."));
+    rep.set("also", json!("Also: margin without surround / inside (attribute, through <defaults>, on a circle) never reaches the output; '^' in a reference list together with a forward reference. Second review round: references carrying translate / matrix / rotate(90) / scale transforms (rect, circle, ellipse; surround and inside), the attributes on elements they do not place (g, symbol, a, switch, defs, clipPath, root svg, text with children, tspan, foreignObject, image/line/text), a <text> reference moved by text-loc."));
     let st = run_space(cases.len(), |i| check(&cases[i]));
     let ms = margins();
     rep.sample(json!({"doc": document(&cases[cases.len() / 2], &ms)}));
@@ -356,6 +362,19 @@ pub fn run(tier: Tier) -> i32 {
         ("stray-margin", r##"<svg><rect id="x" wh="10" margin="2"/></svg>"##, Some((0., 0., 10., 10.))),
         ("stray-margin-defaults", r##"<svg><defaults><rect margin="1"/></defaults><rect id="x" xy="20 0" wh="3"/></svg>"##, Some((20., 0., 23., 3.))),
         ("stray-margin-circle", r##"<svg><circle id="x" cxy="5" r="5" margin="1 2"/></svg>"##, Some((0., 0., 10., 10.))),
+        // the attributes on elements which are not placed by them
+        ("leak/g", r##"<svg><rect id="a" wh="10"/><g surround="#a" margin="2"><rect wh="3"/></g></svg>"##, None),
+        ("leak/g-inside", r##"<svg><rect id="a" wh="10"/><g inside="#a"><rect wh="3"/></g></svg>"##, None),
+        ("leak/symbol", r##"<svg><rect id="a" wh="10"/><symbol id="s" surround="#a" margin="1 2"><rect wh="3"/></symbol></svg>"##, None),
+        ("leak/a", r##"<svg><rect id="a" wh="10"/><a href="x" surround="#a" margin="2"><rect wh="3"/></a></svg>"##, None),
+        ("leak/switch-defs-clippath", r##"<svg><rect id="a" wh="10"/><switch inside="#a"><rect wh="3"/></switch><defs margin="1"><rect wh="3"/></defs><clipPath id="c" surround="#a"><rect wh="3"/></clipPath></svg>"##, None),
+        ("leak/root-margin", r##"<svg margin="3"><rect wh="10"/></svg>"##, None),
+        ("leak/text-with-children", r##"<svg><rect id="a" wh="10"/><text x="1" y="2" surround="#a" margin="1">a<tspan>b</tspan></text></svg>"##, None),
+        ("leak/margin-on-non-graphics", r##"<svg><foreignObject margin="2"/><text x="1" y="2"><tspan margin="1">t</tspan></text><g margin="4"><rect wh="3"/></g></svg>"##, None),
+        ("leak/image-line-text", r##"<svg><rect id="a" wh="10"/><image href="i.png" surround="#a"/><line xy1="0" xy2="5" surround="#a" margin="1"/><text inside="#a" text="t"/></svg>"##, None),
+        // a text reference is where it is written (text-loc moves it by the text offset)
+        ("text-ref/text-loc", r##"<svg><text id="t" xy="20 20" text-loc="tl">hi</text><rect id="x" surround="#t" margin="0.5"/></svg>"##, Some((18.5, 18.5, 19.5, 19.5))),
+        ("text-ref/plain", r##"<svg><text id="t" xy="20 20">hi</text><rect id="x" surround="#t" margin="2 1"/></svg>"##, Some((19., 18., 21., 22.))),
         ("prev-after-deferred/surround", r##"<svg><rect id="a" wh="10"/><rect id="x" surround="^ #z"/><rect id="z" xy="20" wh="3"/></svg>"##, Some((0., 0., 23., 23.))),
         ("prev-after-deferred/inside", r##"<svg><rect id="a" wh="10"/><rect id="x" inside="^ #z"/><rect id="z" xy="2" wh="30"/></svg>"##, Some((2., 2., 10., 10.))),
     ];
